@@ -441,6 +441,9 @@ func runReplay(repo, verifDir string, rp *ReplaySpec, scenarioPath string) (bool
 	cmd.Env = append(os.Environ(), "GOFLAGS=-mod=mod", "GOPROXY=off", "GOSUMDB=off", "GOTOOLCHAIN=local", "VERIF_SCENARIO="+scenarioPath)
 	out, _ := cmd.CombinedOutput()
 	s := string(out)
+	if strings.Contains(s, "[build failed]") || strings.Contains(s, "[setup failed]") {
+		s = "REPLAY-TEST-DOES-NOT-BUILD (the replay harness itself is broken or no longer fits the tree)\n" + s
+	}
 	if i := strings.Index(s, "REPLAY-CRASH-MEANS-REPRODUCED"); i >= 0 {
 		rest := s[i:]
 		if strings.Contains(rest, "panic: ") || strings.Contains(rest, "fatal error: ") {
